@@ -2,7 +2,7 @@
 (* Enumeration of ALL line sequences over the alphabet of KeyParser.tla that  *)
 (* the replay driver feeds to the real stir::KeyParser (part a of C17):       *)
 (* every sequence of at most MaxFull lines, plus the sequences of up to       *)
-(* MaxLen lines whose inner lines are core lines (18; 11 from 5 lines on).  A sequence is extended     *)
+(* MaxLen lines whose inner lines are among 11 core lines.               A sequence is extended     *)
 (* only while the parser would read on; after it has stopped ONE more line is *)
 (* appended (it must not be read).  Written as ndjson to the file named by    *)
 (* the environment variable GEN.  The enumeration can be split over NParts     *)
@@ -22,10 +22,10 @@ Mine(p) == IF Len(p) < 2 THEN MyPart = 0 ELSE p[2] % NParts = MyPart
 FullLevel(n) == IF n = 0 THEN {<<>>} ELSE LET P == FullLevel(n - 1) IN {q \in Ext(P, AlphaIds) \cup Dead(P) : Len(q) # 2 \/ Mine(q)}
 RECURSIVE CoreLevel(_, _)
 CoreLevel(C, n) == IF n = 0 THEN {<<>>} ELSE {q \in Ext(CoreLevel(C, n - 1), C) : Len(q) # 2 \/ Mine(q)}
-\* inner lines of the sequences of 5 and more lines
+\* inner lines of the sequences longer than MaxFull
 SmallCoreIds == {1, 3, 5, 13, 18, 27, 29, 33, 37, 44, 50}
 FullSeqs == {q \in UNION {FullLevel(n) : n \in 0..MaxFull} : Mine(q)}
-DeepSeqs == UNION {Ext(CoreLevel(IF n >= 5 THEN SmallCoreIds ELSE CoreIds, n - 1), AlphaIds) : n \in (MaxFull + 1)..MaxLen}
+DeepSeqs == UNION {Ext(CoreLevel(SmallCoreIds, n - 1), AlphaIds) : n \in (MaxFull + 1)..MaxLen}
 Rec(p, nl) == [e |-> "Run", ids |-> p, nl |-> nl, text |-> TextsOf(p)]
 Runs == {Rec(p, nl) : p \in FullSeqs, nl \in BOOLEAN} \cup {Rec(p, TRUE) : p \in DeepSeqs}
 GenFile == IF "GEN" \in DOMAIN IOEnv THEN IOEnv.GEN ELSE "gen.ndjson"
